@@ -15,6 +15,8 @@ import (
 func init() {
 	fw.Register(&fw.Prop{
 		ID:       "C01",
+		Builds:   []string{"default", "386"}, // the 386 build runs 1/12 of the random classes on a 32-bit target
+		Scale386: 12,
 		Parallel: 4, // cases are judged on 4 goroutines per shard: the library functions are stateless, shared state inside them shows up as wrong verdicts
 		Rule: "(public key, message, signature) triples in classes: honest (crypto/ed25519 signatures, message length 0..2500 and around 2^9..2^13), bitflip (1-2 flipped bits), s_plus_jL (S+jL for every j with S+jL < 2^256), torsion (A=[s]B+T, R=[r]B+T' for all 8x8 torsion pairs, S=r+k*s with k over the bytes as given, and the same with S perturbed), smallorder (every encoding of every small-order point incl. non-canonical ones as A and as R, with S=0, S=k*s, S=jL, S=1), noncanonical_y (all 38 encodings with y>=p), s_high (canonical S in the sliver [2^252, L), built from a small-order A and R=[S]B+T', with structured limbs, and S just at/above L), undecodable A/R, length (signature lengths 0..70), random, and sequence (2..6 consecutive calls on the related keys A and -A, which differ in the sign bit only, with signatures of either, torsion-shifted keys and undecodable R in between: every verdict must equal the predicate of that call alone; the inputs of a sequence are passed in buffers that are overwritten in place between the calls, and some steps first call Sign with a well-formed or a mismatched (seed of one key, public half of another) private key and verify the result). " +
 			"Every Verify call is judged two-sidedly against the big-integer ZIP-215 model and one-sidedly against crypto/ed25519 (std accept => accept). Non-trivial: every distinct triple outside class random.",
